@@ -4,6 +4,8 @@
    message_interface.send(), i.e. re-entrantly inside _send_initially / _continue_backlog / _retransmit /
    the empty-ACK and RST replies (transports/udp6.py:492-507, 694-720).  Nothing goes onto the wire.
 
+   (The two places where this went wrong — _retransmit and _continue_backlog — were repaired by /repo commits 11456f9 and
+   8d04b7c; this file models the repaired code.)
    [l] is the list of remotes the transport currently refuses.  Every function that can reach
    _send_via_transport is redefined here with that parameter; everything else is Model/C14.v's.  Exceptions now
    matter: a KeyError / AssertionError raised in _continue_backlog propagates out of _remove_exchange and
@@ -17,25 +19,29 @@ Open Scope Z_scope.
 Definition refuses (l : list Z) (r : Z) : bool := existsb (Z.eqb r) l.
 Definition crashed (o : list output) : bool := existsb (fun x => match x with Crash _ => true | _ => false end) o.
 
-(* messagemanager.py:534-537 _send_via_transport -> message_interface.send(message) *)
+(* messagemanager.py _send_via_transport -> message_interface.send(message).  A refusal IS dispatch_error(remote),
+   run re-entrantly.  Ghost: a message whose FIRST transmission is refused is recorded as [Dropped] (it leaves the
+   queue accounting without having been on the wire; its request is among those dispatch_error fails). *)
+Definition refused_ghost (what : output) : list output :=
+  match what with Tx m false => [Dropped m] | _ => [] end.
 Definition send_via_transport (l : list Z) (what : output) (r : Z) (s : st) : st * list output :=
-  if refuses l r then dispatch_error r s else (s, [what]).
+  if refuses l r then let '(s', o) := dispatch_error r s in (s', refused_ghost what ++ o) else (s, [what]).
 
-(* messagemanager.py:519-532 _send_initially: the exchange is added BEFORE the datagram is handed over, so a
-   refusal removes it again (together with the backlog and the requests) *)
+(* _send_initially: the exchange is added BEFORE the datagram is handed over, so a refusal removes it again
+   (together with the backlog and the requests) *)
 Definition send_initially (l : list Z) (m : msg) (s : st) : st * list output :=
   let s := if m_mtype m =? 0 then add_exchange m s else s in
   send_via_transport l (Tx m false) (m_remote m) s.
 
-(* messagemanager.py:287-308 _continue_backlog.  After a refused release dispatch_error has removed
-   self._backlogs[remote]; the loop condition is still true and `self._backlogs[remote]` raises KeyError. *)
+(* _continue_backlog: `while remote in self._backlogs and not any(...)` — after a refused release dispatch_error
+   has removed self._backlogs[remote] and the loop ends (fix 8d04b7c; before, KeyError escaped here) *)
 Fixpoint continue_backlog_loop (l : list Z) (fuel : nat) (r : Z) (s : st) : st * list output :=
   match fuel with
   | O => (s, [])
   | S fuel =>
     if has_exchange r s then (s, []) else
     match aget r (backlogs s) with
-    | None => (s, [Crash KeyError])
+    | None => (s, [])
     | Some [] => (upd_bl s (adel r (backlogs s)), [])
     | Some (m :: q) =>
         let '(s1, o1) := send_initially l m (upd_bl s (aset r q (backlogs s))) in
@@ -48,7 +54,7 @@ Definition continue_backlog (l : list Z) (r : Z) (s : st) : st * list output :=
   | Some q => continue_backlog_loop l (S (length q)) r s
   end.
 
-(* messagemanager.py:265-285 _remove_exchange *)
+(* _remove_exchange *)
 Definition remove_exchange (l : list Z) (r mid mtype : Z) (s : st) : st * list output :=
   match xget r mid (active_exchanges s) with
   | None => (s, [])
@@ -58,9 +64,9 @@ Definition remove_exchange (l : list Z) (r mid mtype : Z) (s : st) : st * list o
       let '(s3, o3) := continue_backlog l r s2 in (s3, o2 ++ o3)
   end.
 
-(* messagemanager.py:332-355 _retransmit: the exchange is popped, the datagram handed over, and only THEN the
-   exchange is put back — also when the transport refused and dispatch_error has just dropped the backlog entry
-   and failed the requests: the exchange that is put back has no backlog entry any more. *)
+(* _retransmit: the exchange is popped, rescheduled and put back, and THEN the datagram is handed over, so that a
+   refusing transport's dispatch_error finds and ends it (fix 11456f9; before, it was put back after the send and
+   survived without backlog entry) *)
 Definition retransmit (l : list Z) (x : exchange) (s : st) : st * list output :=
   let m := x_msg x in
   let r := m_remote m in
@@ -69,9 +75,8 @@ Definition retransmit (l : list Z) (x : exchange) (s : st) : st * list output :=
   | Some _ =>
     let s := upd_ex s (xdel r (m_mid m) (active_exchanges s)) in
     if x_counter x <? m_maxre m then
-      let '(s, o) := send_via_transport l (Tx m true) r s in
       let '(s, x') := schedule_retransmit m (x_timeout x * 2) (x_counter x + 1) s in
-      (upd_ex s (x' :: xdel r (m_mid m) (active_exchanges s)), o)
+      send_via_transport l (Tx m true) r (upd_ex s (x' :: xdel r (m_mid m) (active_exchanges s)))
     else
       match aget r (backlogs s) with
       | None => (s, [Crash KeyError])
